@@ -405,6 +405,8 @@ class Hist:
                 val = V                                     # an object
             elif c < 0.8:
                 val = self.supply("setitem_value", np.array(V.proj_data))      # a raw array of primary data
+            elif np.issubdtype(np.asarray(X.proj_data).dtype, np.integer):
+                val = V                                     # (floats assigned into integer data would be truncated by numpy itself)
             else:
                 val = self.iso() @ V
             X[key] = val
